@@ -64,6 +64,11 @@ pub fn execute<H: Helper>(
             if let Some(text) = text {
                 s.edit_insert_text(&text)?;
             }
+            if !input_state.is_inserting() {
+                // replayed by `.` (or bound by the application): no insert session follows that
+                // would close the undo group opened for this command
+                s.changes.end();
+            }
         }
         Cmd::Overwrite(c) => {
             s.edit_overwrite_char(c)?;
